@@ -19,7 +19,7 @@ extern "C" void __tsan_release(void* addr);
 
 namespace sim {
 
-static const char* kOpNames[O_NKINDS] = {"load", "utc", "fixed", "local", "default", "take", "eq", "query", "set_state"};
+static const char* kOpNames[O_NKINDS] = {"load", "utc", "fixed", "local", "default", "take", "eq", "query", "set_state", "bulk"};
 
 // ------------------------------------------------------------------ JSON
 static J op_to_json(const Op& o) {
@@ -33,6 +33,7 @@ static J op_to_json(const Op& o) {
     case O_EQ: j.set("slot", o.slot); j.set("slot2", o.slot2); break;
     case O_QUERY: { j.set("slot", o.slot); J q = query_to_json(o.q); for (auto& kv : q.o) j.set(kv.first, kv.second); break; }
     case O_SET_STATE: j.set("z", o.z); j.set("state", o.s); break;
+    case O_BULK: j.set("count", o.a); j.set("repeat", o.slot2); j.set("state", o.s); break;
     default: break;
   }
   return j;
@@ -47,6 +48,7 @@ static Op op_from_json(const J& j) {
   o.t2 = static_cast<int>(j.geti("from_task"));
   o.a = j.geti("off");
   o.s = j.gets("state");
+  if (o.k == O_BULK) { o.a = j.geti("count"); o.slot2 = static_cast<int>(j.geti("repeat")); }
   if (o.k == O_QUERY) o.q = query_from_json(j);
   return o;
 }
@@ -154,7 +156,9 @@ static const std::vector<std::string>& popular() {
 
 static ZoneSpec gen_zone(Rng* r, int idx, bool allow_bad, bool allow_literal) {
   ZoneSpec z;
-  z.key = std::string(1, static_cast<char>('A' + idx));
+  z.key = std::string(1, static_cast<char>('A' + idx % 26));
+  if (idx >= 26) z.key += std::to_string(idx / 26);
+  if (r->chance(0.3)) z.key += "/" + std::string(static_cast<size_t>(r->pick(std::vector<int>{1, 7, 15, 16, 31, 64})), static_cast<char>('a' + idx % 26));   // names of different lengths
   uint64_t p = r->below(100);
   if (p < 60 || (!allow_bad && !allow_literal)) {
     const auto& names = shipped_names();
@@ -166,7 +170,7 @@ static ZoneSpec gen_zone(Rng* r, int idx, bool allow_bad, bool allow_literal) {
   } else if (p < 76 && allow_bad) {
     z.base = "shipped:" + r->pick(popular()); z.state = "absent";
   } else if (p < 84 && allow_bad) {
-    z.base = "shipped:" + r->pick(popular()); z.state = r->chance(0.5) ? "badmagic" : "trunc";
+    z.base = "shipped:" + r->pick(popular()); z.state = r->pick(std::vector<std::string>{"badmagic", "trunc", "badfooter", "badfooter"});
   } else if (allow_literal) {
     z.literal = true; z.state = "absent";
     static const std::vector<std::string> lits = {"UTC", "UTC0", "Fixed/UTC+05:30:00", "Fixed/UTC-08:00:00", "Fixed/UTC+00:00:00",
@@ -282,6 +286,7 @@ ConcCase gen_conc(const std::string& property, const std::string& tier, uint64_t
   }
   int nz = static_cast<int>(wl.range(1, is_c20 ? 4 : 5));
   if (wl.chance(0.3)) nz = 1;  // maximal contention
+  else if (wl.chance(0.04)) nz = static_cast<int>(wl.range(12, 40));   // many names: cache growth and rehashing while others use it
   for (int i = 0; i < nz; ++i) {
     c.zones.push_back(gen_zone(&wl, i, true, i > 0 || wl.chance(0.2)));
     // Occasionally the next name is the previous one with a "file:" prefix: same data, but a different name
@@ -300,7 +305,7 @@ ConcCase gen_conc(const std::string& property, const std::string& tier, uint64_t
   }
   if (is_c14) {
     for (ZoneSpec& z : c.zones) if (!z.literal) {
-      static const std::vector<std::string> st = {"healthy", "healthy", "absent", "badmagic", "trunc", "eio"};
+      static const std::vector<std::string> st = {"healthy", "healthy", "absent", "badmagic", "trunc", "eio", "badfooter"};
       z.state = fl.pick(st);
     }
   }
@@ -347,7 +352,7 @@ ConcCase gen_conc(const std::string& property, const std::string& tier, uint64_t
       }
       else if (is_c14 && p < 99) {
         o.k = O_SET_STATE; o.z = static_cast<int>(wl.below(static_cast<uint64_t>(nz)));
-        static const std::vector<std::string> st = {"healthy", "healthy", "absent", "badmagic", "trunc", "eio"};
+        static const std::vector<std::string> st = {"healthy", "healthy", "absent", "badmagic", "trunc", "eio", "badfooter"};
         o.s = wl.pick(st);
         if (c.zones[static_cast<size_t>(o.z)].literal) { o.k = O_UTC; o.slot = 0; slot_zone[0] = -1; }
       }
@@ -355,6 +360,15 @@ ConcCase gen_conc(const std::string& property, const std::string& tier, uint64_t
       ops.push_back(o);
     }
     c.tasks.push_back(ops);
+  }
+  if (wl.chance(0.004)) {
+    Op b; b.k = O_BULK;
+    b.a = wl.pick(std::vector<int64_t>{70, 300, 1100, 2200, 4300});
+    b.slot2 = static_cast<int>(wl.range(1, 4));
+    b.s = wl.pick(std::vector<std::string>{"absent", "absent", "tiny", "bad"});
+    c.tasks[wl.below(c.tasks.size())].push_back(b);
+    c.sched.disabled_kinds |= (1u << Y_READ) | (1u << Y_SKIP) | (1u << Y_SRC_DTOR) | (1u << Y_FACTORY_MID);   // keep the run short
+    c.factory_yields = 0;
   }
   gen_sched_knobs(&sc, &c);
   return c;
@@ -462,6 +476,11 @@ struct Exec {
     if (state == "absent" || healthy.empty()) e.kind = CatEntry::ABSENT;
     else if (state == "badmagic") e.bytes[0] = 'X';
     else if (state == "trunc") e.bytes.resize(healthy.size() * 6 / 10);
+    else if (state == "badfooter") {   // everything is fine until the very end of the POSIX rule string
+      TzLayout L = layout_of(healthy);
+      if (L.ok && L.footer_len > 2) { e.bytes = healthy.substr(0, L.footer + L.footer_len - 1) + ",\n"; }
+      else e.bytes[0] = 'X';
+    }
     else if (state == "eio") e.eio_at = static_cast<int64_t>(healthy.size() / 2);
   }
 
@@ -597,6 +616,38 @@ struct Exec {
         ev(query_text(o.q) + " on " + s.tz.name() + " = " + qr.got);
         break;
       }
+      case O_BULK: {
+        // Many distinct fresh names (all failing, all tiny-but-healthy, or all rejected), then the first few again:
+        // the cache's behaviour as it grows, rehashes, or - in a changed library - starts to forget.
+        const std::string prefix = "sim/" + salt + "/bulk" + std::to_string(t) + "_";
+        if (o.s == "tiny" || o.s == "bad") {
+          fac.wildcard_prefix = "sim/" + salt + "/bulk";
+          fac.wildcard_entry.kind = CatEntry::BYTES;
+          fac.wildcard_entry.bytes = shipped_bytes("Etc/UTC");
+          if (o.s == "bad") fac.wildcard_entry.bytes[0] = 'X';
+        }
+        const int64_t n = std::min<int64_t>(o.a, 20000), rep = std::min<int64_t>(o.slot2, n);
+        for (int64_t pass = 0; pass < 2; ++pass) {
+          for (int64_t i = 0; i < (pass == 0 ? n : rep); ++i) {
+            std::string name = prefix + std::to_string(i);
+            const bool rec = i < rep;
+            LoadRec lr; lr.task = t; lr.opidx = opidx; lr.z = -20 - static_cast<int>(i); lr.local = false; lr.requested = name;
+            if (rec) { ev("invoke load(" + name + ")"); lr.seq_inv = global_seq(); }
+            fac.task_op[static_cast<size_t>(t)] = name;
+            cctz::time_zone tz;
+            bool ok;
+            { LibraryScope ls; ok = cctz::load_time_zone(name, &tz); }
+            fac.task_op[static_cast<size_t>(t)] = "";
+            if (rec) {
+              lr.ok = ok; lr.tz = tz;
+              ev(std::string("return load(") + name + ") = " + (ok ? "true" : "false"));
+              lr.seq_ret = global_seq();
+              loads.push_back(lr);
+            }
+          }
+        }
+        break;
+      }
       case O_SET_STATE: {
         if (o.z < 0 || static_cast<size_t>(o.z) >= c.zones.size() || c.zones[static_cast<size_t>(o.z)].literal) break;
         apply_state(o.z, o.s);
@@ -699,7 +750,7 @@ Outcome exec_conc(const ConcCase& c, bool keep_log, Stats* stats) {
     for (auto& kv : by_zone) {
       int z = kv.first;
       const std::vector<const LoadRec*>& v = kv.second;
-      std::string zname = z >= 0 ? x.fullname(z) : x.local_target();
+      std::string zname = z >= 0 ? x.fullname(z) : (z <= -20 ? v[0]->requested : x.local_target());
       int64_t boff = 0;
       bool builtin = builtin_name(zname, &boff);
       const LoadRec* first_ok = nullptr;
